@@ -61,15 +61,12 @@ H("c02_fuse_dense", "c02_fuse::c02_fuse_dense", ["C02"],
   assumptions=["the dense/readable writers call the break_* predicate named in each claim before the token it guards (call sites read, not executed)"])
 
 # ---------------------------------------------------------------------------------------- scalar kernels
-H("c14_valid_identifier_4", "c_scalar::c14_valid_identifier_4", ["C14", "C01", "C09"], ["process::utils::is_valid_identifier"],
-  "every ASCII string of length 0..=4", mode="lean", timeout_s=600, replay="valid_identifier_4",
-  assumptions=["non-ASCII strings are outside the bound (the function rejects them by an is_ascii test that is executed for ASCII inputs only)"])
+H("c14_valid_identifier_8", "c_scalar::c14_valid_identifier_8", ["C14", "C01", "C09"], ["process::utils::is_valid_identifier"],
+  "every ASCII string of length 0..=8 (covers all 21 reserved words, `function` being the longest)", mode="lean", timeout_s=1200, mem_gb=16,
+  replay="valid_identifier_8", assumptions=["non-ASCII strings: see c14_valid_identifier_unicode"])
 H("c14_valid_identifier_unicode", "c_scalar::c14_valid_identifier_unicode", ["C14", "C01", "C09"], ["process::utils::is_valid_identifier"],
   "every string of 1..=3 characters below U+0800 (ASCII and two-byte UTF-8 characters, e.g. accented letters)", mode="lean", timeout_s=900,
   replay="valid_identifier_unicode", assumptions=["characters from U+0800 are outside the bound"])
-H("c14_valid_identifier_6", "c_scalar::c14_valid_identifier_6", ["C14", "C01", "C09"], ["process::utils::is_valid_identifier"],
-  "every ASCII string of length 0..=6 (covers the 6-letter reserved words `elseif`, `repeat`, `return`)", tier="thorough",
-  mode="lean", timeout_s=1200, replay="valid_identifier_6")
 H("c18_single_line_comment_7", "c_scalar::c18_single_line_comment_7", ["C18", "C01", "C04"], ["generator::token_based::is_single_line_comment"],
   "every ASCII comment text `--...` of length 2..=7", mode="lean", timeout_s=600, replay="single_line_comment_7")
 H("c18_single_line_comment_9", "c_scalar::c18_single_line_comment_9", ["C18", "C01", "C04"], ["generator::token_based::is_single_line_comment"],
